@@ -79,3 +79,38 @@ structure AtSecond (c : Core) (a : Isa.Arch) (v : Byte) : Prop where
   lastBus : c.lastBus = a.bus.read a.pc
 
 end Emu2a
+
+namespace Emu2a
+open Gen
+
+/-- An end word: the last micro-step of an instruction that samples the interrupt request
+(MAC = 0011, NA0 = 1): the next address is `no int:` (fetch) or `int:`. -/
+def UWord.isEnd (w : UWord) : Bool := !w.mac3 && !w.mac2 && w.mac1 && w.mac0 && (w.na % 2 == 1)
+
+/-- The core has just executed the end word of an instruction whose architectural result is `a`:
+the pending register/flag writes, once committed, give `a`'s registers; the bus is final. -/
+structure AtEnd (c : Core) (a : Isa.Arch) : Prop where
+  isEnd : (word c.addr).isEnd = true
+  addrLt : c.addr < 512
+  page : c.ir / 16 = c.addr / 32
+  irLt : c.ir < 256
+  r0 : c.applyPending.regs.r0 = a.r0
+  r1 : c.applyPending.regs.r1 = a.r1
+  r2 : c.applyPending.regs.r2 = a.r2
+  r3 : c.applyPending.regs.r3 = a.pc
+  r4 : c.applyPending.regs.r4 = a.fr
+  r5 : c.applyPending.regs.r5 = a.sp
+  bus : c.bus = a.bus
+
+end Emu2a
+
+namespace Emu2a
+open Gen
+/-- `ustep` for a symbolic instruction register whose relevant bits are given by hypotheses
+(`irBit i m = …` in the context). -/
+macro "ustepIr" : tactic =>
+  `(tactic| (rw [Core.iter_succ];
+             simp [Core.step, Core.applyPending, Core.updateIr, Core.irAct, Core.updateWord, Core.execWord,
+                   Regs.set, Regs.get, Sig.nextAddr, Sig.am4, Sig.am3, Sig.am1, Sig.am2, Sig.al3, Sig.al2,
+                   Sig.selA, Sig.selB, Sig.selW, Sig.il1, b2n, Sig.bConst, *]))
+end Emu2a
